@@ -90,3 +90,34 @@ func VH_C04_RequestRoundTrip(apiKey, version, shape int) {
 	vhAssert(vhBytesEq(buf2.Bytes(), frame), "request-reencode-identical")
 	vhReach("c04-request-roundtrip")
 }
+
+// C04-H3: arrays longer than what the decoder allocates up front (decodeArrayOf grows its slice): a Metadata v1
+// response listing n brokers, hand-encoded; decoding must yield exactly n entries, consume exactly the frame, and
+// encoding the decoded message must give the same bytes.
+func VH_C04_LargeArray(n int) {
+	base := vhInt32("first_node_id")
+	port := vhInt32("port")
+	w := &vhW{}
+	w.i32(int32(n))
+	for i := 0; i < n; i++ {
+		w.i32(base + int32(i))
+		w.str("h")
+		w.i32(port)
+		w.nullStr()
+	}
+	w.i32(base) // controller
+	w.i32(0)    // topics
+	frame := vhFrameOf(7, w.b)
+	fc := &vhFakeConn{data: append(append([]byte{}, frame...), 0xAA, 0xBB)}
+	conn := NewConn(fc, "vh")
+	id, got, err := ReadResponse(conn, Metadata, 1)
+	vhAssert(err == nil && id == 7, "large-array-read-ok")
+	vhAssert(fc.off-conn.buffer.Buffered() == len(frame), "large-array-consumes-exactly-one-frame")
+	brokers, ok := vhFieldByName(reflect.ValueOf(got).Elem(), "Brokers")
+	vhAssert(ok && brokers.Len() == n, "large-array-element-count")
+	var buf bytes.Buffer
+	err = WriteResponse(&buf, 1, 7, got)
+	vhAssert(err == nil, "large-array-rewrite-ok")
+	vhAssert(vhBytesEq(buf.Bytes(), frame), "large-array-reencode-identical")
+	vhReach("c04-large-array")
+}
